@@ -28,6 +28,7 @@ META = {
         "= the failing call was issued while >=2 tasks besides the batcher were alive, or carried a branch's update; "
         "distinct = (program shape, fault, decision-trace hash)."
         " Plus LinePreempt sweeps over state.py/threading.py/executor.py for eight fixed programs with one failing call, including two in which the failing call returns at the instant a sleeping step body wakes (all tie-break orders)."
+        " Constructed stage: the timer thread's refresh call fails while the done-callback of the last parking branch is publishing the suspend decision (one 0.35 s preemption per executed line of executor.py x failing call index)."
     ),
     "assumptions": ["the service client raises what a conforming boto client raises (.response with Error/ResponseMetadata)",
                     "classification table is the documented one: 4xx (not 429, not 'Invalid Checkpoint Token') => raise for retry; 429/5xx/invalid token => FAILED"],
